@@ -18,7 +18,8 @@ Definition allowed (k : cls) : bool :=
 Definition params0 : list (name * value) :=
   [(bs "n", VInt 2); (bs "arr", VArr [VInt 3; VInt 1; VInt 2; VInt 1]);
    (bs "obj", VObj [(bs "a", VInt 1); (bs "list", VArr [VInt 1; VInt 2])]);
-   (bs "s", VStr (bs "k")); (bs "f", VFloat 4609434218613702656%N)].
+   (bs "s", VStr (bs "k")); (bs "f", VFloat 4609434218613702656%N);
+   (bs "big", VArr [VInt 2; VInt 1; VInt 2; VInt 1])].
 
 Definition check_case (i : N) (c : option program * cls) : list (N * N * N) :=
   let '(p, k) := c in
